@@ -53,6 +53,8 @@ LEVEL_ROOT = {"node": "Node", "service": "Service", "application": "Application"
 # slot kinds of action templates (E5) that restrict the node level to a sub-hierarchy
 SLOT_ROOT = {"node": "Node", "router": "Router", "firewall": "Firewall", "service": "Service",
              "application": "Application", "nic": "NetworkInterface", "folder": "Folder", "file": "File"}
+# template fields that select one of the literal keys of a static level
+CHOICE_FIELDS = {"firewall_port_name": ("Firewall", "ports"), "firewall_port_direction": ("Firewall", "directions")}
 SLOT_LEVEL = {"node": "node", "router": "node", "firewall": "node", "service": "service", "application": "application",
               "nic": "nic", "folder": "folder", "file": "file"}
 
@@ -389,7 +391,7 @@ def validator_sources(classes: Dict[str, Cls]) -> List[Tuple[str, str]]:
         if call is None:
             raise ValueError(f"{owner}.{vname} has no __call__")
         body = [s for s in call.body if not (isinstance(s, ast.Expr) and isinstance(s.value, ast.Constant))]
-        out.append((atom, "; ".join(ast.unparse(s).replace("\n", " ") for s in body)))
+        out.append((atom, "; ".join(" ".join(ast.unparse(s).split()) for s in body)))
         seen.add(atom)
     # every validator class in the tree must be one we name (a new validator class = unrecognised shape)
     for c in classes.values():
@@ -474,13 +476,40 @@ def build():
             raise ValueError(f"{mname}: manager mixes literal and dynamic keys")
         mgrs[mname] = {"kind": "dynamic", "level": kinds.pop(), "keyty": tys.pop(), "validator": [list(v) for v in vals.pop()],
                        "sites": sorted({s["site"] + ":" + s["op"] for s in ss})}
-    level_classes = {lv: [c for c in comps if is_subclass(classes, c, root)] for lv, root in LEVEL_ROOT.items()}
-    slot_classes = {sk: [c for c in comps if is_subclass(classes, c, root)] for sk, root in SLOT_ROOT.items()}
     names = []
-    for c in level_classes["service"] + level_classes["application"]:
-        n = software_name(classes, c)
-        names.append((c, n, classes[c].discriminator))
-    return {"classes": classes, "mgrs": mgrs, "level_classes": level_classes, "slot_classes": slot_classes, "names": names,
+    for c in comps:
+        if is_subclass(classes, c, "Service") or is_subclass(classes, c, "Application"):
+            names.append((c, software_name(classes, c), classes[c].discriminator))
+    named = {c for c, n, _ in names if n is not None}
+
+    def instantiable(c: str, root: str) -> bool:
+        """classes that can actually occur as a component: software needs a name to register under (the abstract bases
+        Service / Application / FTPServiceABC / AbstractC2 have none), a node class needs a discriminator (registered)"""
+        if root in ("Service", "Application"):
+            return c in named
+        if root in ("Node", "Router", "Firewall"):
+            return classes[c].discriminator is not None
+        return True
+    level_classes = {lv: [c for c in comps if is_subclass(classes, c, root) and instantiable(c, root)] for lv, root in LEVEL_ROOT.items()}
+    slot_classes = {sk: [c for c in comps if is_subclass(classes, c, root) and instantiable(c, root)] for sk, root in SLOT_ROOT.items()}
+    # literal choices (firewall port / direction): the keys Firewall's OWN _init_request_manager adds to its root manager that
+    # lead to auxiliary managers, and the keys of those managers (which must agree)
+    choices = {}
+    for field, (cname, what) in CHOICE_FIELDS.items():
+        info = inits.get(cname)
+        if info is None:
+            raise ValueError(f"{cname} has no _init_request_manager (needed for the choices of {field})")
+        ports = [(key, target[1]) for (m, key, target, _) in info.ops if m == "rm" and target[0] == "aux"]
+        if not ports:
+            raise ValueError(f"{cname}: no literal port keys found")
+        if what == "ports":
+            choices[field] = [k for k, _ in ports]
+        else:
+            dirs = [[key for (m, key, _, _) in info.ops if m == aux] for _, aux in ports]
+            if any(d != dirs[0] for d in dirs) or not dirs[0]:
+                raise ValueError(f"{cname}: the port managers do not share one set of direction keys: {dirs}")
+            choices[field] = dirs[0]
+    return {"classes": classes, "choices": choices, "mgrs": mgrs, "level_classes": level_classes, "slot_classes": slot_classes, "names": names,
             "sites": sites, "validators": validator_sources(classes),
             "discriminators": {c: classes[c].discriminator for c in comps if classes[c].discriminator}}
 
@@ -546,7 +575,11 @@ def emit() -> str:
     L.append("def validatorBodies : List (String × String) := [")
     L.append(",\n".join(f"  ({lstr(a)}, {lstr(src)})" for a, src in d["validators"]) + "]")
     L.append("")
-    L.append("def schema : Schema := { mgrs := mgrs, levelClasses := levelClasses, slotClasses := slotClasses, names := softwareNames }")
+    L.append("/-- template fields that select one of the literal keys of a static level, with those keys -/")
+    L.append("def choices : List (String × List String) := [")
+    L.append(",\n".join(f"  ({lstr(f)}, [" + ", ".join(lstr(k) for k in ks) + "])" for f, ks in d["choices"].items()) + "]")
+    L.append("")
+    L.append("def schema : Schema :=\n  { mgrs := mgrs, levelClasses := levelClasses, slotClasses := slotClasses, names := softwareNames, choices := choices }")
     L.append("")
     L.append("end Primaite.Gen.RequestSchema")
     return "\n".join(L) + "\n"
@@ -558,7 +591,7 @@ def as_python():
     return {
         "mgrs": {k: ({"kind": "static", "edges": {key: {"target": t, "validator": v} for key, (t, v) in m["edges"].items()}}
                      if m["kind"] == "static" else m) for k, m in d["mgrs"].items()},
-        "level_classes": d["level_classes"], "slot_classes": d["slot_classes"],
+        "level_classes": d["level_classes"], "slot_classes": d["slot_classes"], "choices": d["choices"],
         "names": {c: n for c, n, _ in d["names"]}, "discriminators": d["discriminators"], "sites": d["sites"],
         "mro": {c: mro(d["classes"], c) for c in d["classes"]},
     }
